@@ -429,6 +429,10 @@ struct Value {
     void do_addr_to_spk() {
         // addresses are base58-check encoded, so we decode them first
         do_base58chkdec();
+        if (data.empty()) {
+            // not a base58check string (do_base58chkdec has reported it): there is nothing to convert
+            return;
+        }
         // they are now prefixed with a 0x00; rip that out
         data.erase(data.begin());
         // wrap in appropriate script fluff
